@@ -106,17 +106,7 @@ def run(repo: Repo, rep: Report, tier: str) -> None:
     tsdef = [s for s in lp.body if isinstance(s, ast.Assign) and norm(s.value) == f"{lv}.transfer_syntax[0]"]
     rep.need(len(tsdef) == 1, f"{fq}: cx_syntax binding vanished")
     cxs = norm(tsdef[0].targets[0])
-    inner = [i for i in lp.body if isinstance(i, ast.If) and norm(i.test) == "tr_syntax"]
-    rep.need(len(inner) == 1, f"{fq}: `if tr_syntax:` block vanished")
-    blk = inner[0].body
-    exact = [i for i in blk if isinstance(i, ast.If) and norm(i.test) in (f"tr_syntax == {cxs}", f"{cxs} == tr_syntax")]
-    rep.check(len(exact) == 1 and len(exact[0].body) == 1 and norm(exact[0].body[0]) == f"return {lv}" and blk.index(exact[0]) == 0, "selector", fq, exact[0] if exact else "exact match", "an exact transfer-syntax match must be returned first", mod=am, node=exact[0] if exact else lp)
-    comp = [i for i in blk if isinstance(i, ast.If) and sorted(norm(v) for v in (i.test.values if isinstance(i.test, ast.BoolOp) and isinstance(i.test.op, ast.Or) else [])) == sorted([f"tr_syntax.is_compressed", f"{cxs}.is_compressed"])]
-    rep.check(len(comp) == 1 and [norm(s) for s in comp[0].body] == ["continue"], "selector", fq, comp[0] if comp else "compressed -> continue", "a data set may only be converted between uncompressed syntaxes: a candidate is skipped when either side is compressed", mod=am, node=comp[0] if comp else lp)
-    end = [i for i in blk if isinstance(i, ast.If) and norm(i.test) in (f"tr_syntax.is_little_endian != {cxs}.is_little_endian", f"{cxs}.is_little_endian != tr_syntax.is_little_endian")]
-    rep.check(len(end) == 1 and [norm(s) for s in end[0].body] == ["continue"], "selector", fq, end[0] if end else "byte order differs -> continue", "conversion is only allowed between syntaxes of the same byte order", mod=am, node=end[0] if end else lp)
-    app = [s for s in lp.body if isinstance(s, ast.Expr) and norm(s.value) == f"matches.append({lv})"]
-    rep.check(len(app) == 1 and lp.body.index(app[0]) > lp.body.index(inner[0]), "selector", fq, "matches.append(cx) after the skips", "only candidates that passed the skips are convertible matches", mod=am, node=lp)
+    _check_matching_loop(rep, am, fq, lp, lv, cxs)
     rets = [r for r in walk_no_nested(gv) if isinstance(r, ast.Return)]
     for r in rets:
         v = norm(r.value)
@@ -233,3 +223,106 @@ def run(repo: Repo, rep: Report, tier: str) -> None:
                 rebound = [s for s in walk_no_nested(fn) if isinstance(s, ast.Assign) and norm(s.targets[0]) == "context"]
                 rep.check(ok and not rebound, "scp-side", f"{short}.{qualname(c)}", enclosing(c, (ast.stmt,)), f"codec flags read from {obj} = {norm(defs[0].value) if defs else '?'}: an SCP must encode/decode with the transfer syntax of the context the request arrived on (its `context` parameter)", mod=m, node=c)
     rep.floor("service-class codec sites", n_scp, 15)
+
+    # ---- the role the selector filters on is the negotiated one ---------------------------------------
+    from ..delegate import delegate
+    rep.rule("role-source", "as_scu / as_scp of every accepted context come from the role negotiation of that context (C11's every-context and normalisation rules)")
+    delegate(repo, rep, tier, "C11", ("every-context", "normalisation"), "role-source", "_get_valid_context filters on as_scu / as_scp: with the proposed roles missing on a context the requestor believes it is SCU there, and a request goes out on a context where the local side does not hold the role")
+
+def _check_matching_loop(rep, am, fq, lp, lv, cxs):
+    """The body of the matching loop, evaluated for one candidate over the finite space of what it can look at:
+    transfer syntax requested or not, the same as the candidate's or not, and for both syntaxes the
+    flags is_compressed / is_little_endian / is_deflated / is_implicit_VR. Required outcome (the documented
+    rule): no syntax requested -> convertible match; same syntax -> returned at once; otherwise a
+    convertible match exactly when neither side is compressed and the byte orders agree, else skipped."""
+    import itertools
+
+    from ..absval import NONE, Explorer
+    from ..cfg import CFG
+
+    body_src = "\n".join(ast.unparse(s_) for s_ in lp.body)
+    fn = ast.parse("def _one():\n" + "\n".join("    " + l for l in body_src.split("\n")) + "\n    return '__end__'\n").body[0]
+
+    class _K(ast.NodeTransformer):
+        def visit_Continue(self, n):
+            return ast.copy_location(ast.Return(value=ast.Constant(value="__skip__")), n)
+
+        def visit_For(self, n):
+            return n  # a nested loop's continue is its own
+
+        visit_While = visit_For
+
+    fn = ast.fix_missing_locations(_K().visit(fn))
+    cfg = CFG(fn, body=fn.body, may_raise=lambda node: False)
+    FLAGS = ("is_compressed", "is_little_endian", "is_deflated", "is_implicit_VR")
+    n_pts = 0
+    bad = []
+
+    def run(tr_tag, flags):
+        def tag_of(e, env):
+            t = norm(e)
+            if t == f"{lv}.transfer_syntax[0]":
+                return "C"
+            v = env.get(t)
+            if isinstance(v, tuple) and v[0] == "str" and v[1] in ("T", "C"):
+                return v[1]
+            return None
+
+        def special(e, env):
+            if norm(e) == f"{lv}.transfer_syntax[0]":
+                return ("str", "C")
+            if isinstance(e, ast.Attribute) and e.attr in FLAGS:
+                tg = tag_of(e.value, env)
+                if tg is not None:
+                    # 'same syntax': the requested one *is* the candidate's
+                    key = "C" if (tr_tag == "same" and tg == "T") else tg
+                    return ("bool", flags[(key, e.attr)])
+            return None
+
+        def on_stmt(n, env):
+            st = n.ast
+            if isinstance(st, ast.Expr) and isinstance(st.value, ast.Call) and norm(st.value.func) == "matches.append":
+                env = dict(env)
+                env["@app"] = ("str", norm(st.value.args[0]) if st.value.args else "?")
+                return env
+            if isinstance(st, ast.Return):
+                env = dict(env)
+                env["@ret"] = ("str", norm(st.value) if st.value is not None else "None")
+                return env
+            return None
+
+        init = {"tr_syntax": NONE if tr_tag == "none" else ("str", "C" if tr_tag == "same" else "T")}
+        exits, _ = Explorer(cfg, special=special, on_stmt=on_stmt).run(init)
+        outs = set()
+        for kind, env in exits:
+            if kind != "exit":
+                outs.add("raise")
+                continue
+            r = env.get("@ret", ("str", "?"))[1]
+            appended = env.get("@app", ("str", ""))[1] == lv
+            if r in ("'__skip__'", "'__end__'"):
+                outs.add("match" if appended else "skip")
+            elif r == lv:
+                outs.add("return")
+            else:
+                outs.add(f"return {r}")
+        return outs
+
+    keys = [(t, f) for t in ("T", "C") for f in FLAGS]
+    for tr_tag in ("none", "same", "diff"):
+        for vals in itertools.product((False, True), repeat=len(keys)):
+            flags = dict(zip(keys, vals))
+            if tr_tag != "diff" and any(flags[("T", f)] for f in FLAGS):
+                continue  # T's flags are irrelevant: one representative
+            n_pts += 1
+            want = "match" if tr_tag == "none" else "return" if tr_tag == "same" else ("match" if not flags[("T", "is_compressed")] and not flags[("C", "is_compressed")] and flags[("T", "is_little_endian")] == flags[("C", "is_little_endian")] else "skip")
+            got = run(tr_tag, flags)
+            if got != {want}:
+                bad.append((tr_tag, flags, want, got))
+    if not bad:
+        rep.ok("selector", f"{fq} :: matching loop over {n_pts} abstract (requested, candidate) transfer-syntax points", "exact match returned first; convertible match iff both uncompressed and same byte order; else skipped")
+    else:
+        tr_tag, flags, want, got = bad[0]
+        desc = "no transfer syntax requested" if tr_tag == "none" else "requested syntax is the candidate's" if tr_tag == "same" else "requested: " + ", ".join(f"{f}={flags[('T', f)]}" for f in FLAGS) + " / candidate: " + ", ".join(f"{f}={flags[('C', f)]}" for f in FLAGS)
+        rep.fail("selector", fq, f"matching loop: {desc} -> {sorted(got)} (must be {want})", f"for {len(bad)} of {n_pts} combinations of requested and candidate transfer syntax the loop does not do what the conversion rule says (a data set may only be sent as it is, or converted between uncompressed syntaxes of the same byte order); first: {desc}: the candidate is {sorted(got)}, it must be '{want}'", mod=am, node=lp)
+    rep.floor("abstract transfer-syntax points", n_pts, 100)
